@@ -28,6 +28,7 @@ type c16In struct {
 	Success   int   `json:"success"` // 0 absent, 1 present, 2 present and failing
 	Fail      int   `json:"fail"`
 	Finally   int   `json:"finally"`
+	ErrListenerMS int `json:"err_listener_ms,omitempty"` // >0: the body registers an error listener that takes this long
 }
 
 func c16Gen(r *Rand, tier string) interface{} {
@@ -43,6 +44,9 @@ func c16Gen(r *Rand, tier string) interface{} {
 		in.NestFail = append(in.NestFail, r.Chance(1, 3))
 		in.NestMS = append(in.NestMS, r.Pick(0, 2, 20))
 	}
+	if r.Chance(1, 3) {
+		in.ErrListenerMS = r.Pick(1, 5, 50)
+	}
 	h := func() int { return []int{0, 1, 1, 1, 2}[r.Intn(5)] }
 	in.Success, in.Fail, in.Finally = h(), h(), h()
 	return in
@@ -51,6 +55,9 @@ func c16Gen(r *Rand, tier string) interface{} {
 func (in *c16In) body() string {
 	var sb strings.Builder
 	sb.WriteString("begin --id=b\n")
+	if in.ErrListenerMS > 0 {
+		fmt.Fprintf(&sb, "onerror --id=b --ms=%d\n", in.ErrListenerMS)
+	}
 	for k := 0; k <= in.Steps; k++ {
 		if k == in.FailAt {
 			sb.WriteString("fail --id=b\n")
@@ -225,6 +232,11 @@ func c16Shrink(inI interface{}) []interface{} {
 		c.Nested = append(c.Nested[:j], c.Nested[j+1:]...)
 		c.NestFail = append(c.NestFail[:j], c.NestFail[j+1:]...)
 		c.NestMS = append(c.NestMS[:j], c.NestMS[j+1:]...)
+		out = append(out, c)
+	}
+	if in.ErrListenerMS > 0 {
+		c := cp()
+		c.ErrListenerMS = 0
 		out = append(out, c)
 	}
 	if in.Steps > 0 {
